@@ -89,12 +89,126 @@ def class_formula(ck, xr, orc, model, qc, kern, desc, cmode, n_trees):
 
 
 
+def kernel_option_regimes(ck, xr, rng):
+    """(ii-opt) NON-DEFAULT kernel options passed through rfm_params['model'] — the options that change the documented closed form of K itself and that the
+    main sweep leaves at their defaults: the sum-power kernel's `const_mix` (0 / small / 0.5 / close to 1) x `power` (1, 2, 3, 4) x exponent, and the Lpq kernel's
+    norm p (1, 1.2, 1.8, 2 with q <= p); crossed with diagonal / full / NO feature matrix (iters=0), depth 0..2, 1-2 trees, regression / two outputs / both class
+    encodings.  Oracle = the statement: public predict / predict_proba vs the mpmath expansion  sum_i alpha_i K(x, c_i)  of the leaf reached by exact routing, K in
+    its documented form ((1-c) mean_j k_j + c)^power resp. exp(-||T(x-c)||_p^q / L^q), evaluated from the STORED centers / weights / matrix / bandwidth / options;
+    plus row-order and batch-composition independence of the same rows.  The combination is enumerated by index (the seed changes the numbers only)."""
+    checked = 0
+    cmixes = [0.3, 0.0, 0.5, 0.05, 0.9, 0.15, 0.7, 0.25]
+    powers = [2, 3, 4, 1, 2, 5, 3, 2]
+    sp_exps = [1.0, 1.3, 0.7, 2.0, 1.0, 1.6]
+    lpq_pq = [(1.0, 1.0), (1.2, 0.9), (2.0, 1.0), (1.8, 1.8), (1.5, 0.6), (2.0, 2.0)]
+    for j in range(ck.n(8, 32)):
+        fam = 'lpq' if j % 4 == 3 else 'sum_power_laplace'
+        s = 3 * (j // 4) + j % 4 if fam == 'sum_power_laplace' else j // 4           # running index inside the family
+        if fam == 'sum_power_laplace':
+            opts = dict(const_mix=cmixes[s % len(cmixes)], power=powers[s % len(powers)])
+            exponent = sp_exps[s % len(sp_exps)]
+        else:
+            p, exponent = lpq_pq[s % len(lpq_pq)]
+            opts = dict(norm_p=p)
+        task = ['reg', 'class', 'reg2', 'reg'][j % 4] if j % 8 != 5 else 'class'
+        cmode = ['zero_one', 'prevalence'][(j // 2) % 2]
+        iters = [1, 0, 2, 1][s % 4]                   # 0 rounds: no learned feature matrix at all
+        diag = bool((s // 2) % 2)
+        n_trees = 2 if j % 5 == 2 else 1
+        n = int(rng.integers(70, 150)); d = int(rng.integers(2, 6))
+        L = [30, 10_000, 50, 22][j % 4]              # depth 0 (a single root leaf) every fourth fit
+        X = xr.make_X('random', n, d, rng); y = xr.make_y(task, X, rng)
+        Xv = xr.make_X('random', 30, d, rng); yv = xr.make_y(task, Xv, rng)
+        params = xr.default_rfm_params(kernel=fam, iters=iters, diag=diag, bandwidth=[3.0, 1.5, 6.0][j % 3], exponent=exponent,
+                                       bandwidth_mode='constant', reg=1e-2, return_best=(j % 2 == 0), **opts)
+        desc = dict(kind='kernel-options', j=j, kernel=fam, task=task, cmode=cmode, n_trees=n_trees, n=n, L=L, d=d, diag=diag, iters=iters,
+                    exponent=exponent, bandwidth=params['model']['bandwidth'], seed=ck.seed, **opts)
+        xr.seed_all(2300 + j + ck.seed)
+        model = xr.xRFM(rfm_params=params, max_leaf_size=L, n_trees=n_trees, verbose=False, split_method=['random_pca', 'top_vector_agop_on_subset', 'pca', 'linear'][j % 4],
+                        use_temperature_tuning=False, classification_mode=cmode, refill_size=15)
+        try:
+            with xr.quiet():
+                model.fit(torch.tensor(X), torch.tensor(y), torch.tensor(Xv), torch.tensor(yv))
+        except Exception as e:
+            ck.notes.append(f'kernel-options fit failed {desc}: {e!r}'[:300]); ck.count('kernel-options fit-failed')
+            continue
+        model.split_temperature = None
+        leaves = [l for t in model.trees for l in orc.tree_leaves(t)]
+        # the options must have ARRIVED in every leaf's kernel object (otherwise the regime would silently test the defaults)
+        for l in leaves:
+            ko = l['model'].kernel_obj
+            have = dict(const_mix=float(getattr(ko, 'const_mix', 0.0)), power=getattr(ko, 'power', None)) if fam == 'sum_power_laplace' else dict(norm_p=float(getattr(ko, 'p', float('nan'))))
+            if orc.kname_of(ko) != {'sum_power_laplace': 'sum_power', 'lpq': 'lpq'}[fam] or any(have[k] != opts[k] for k in opts):
+                ck.violation(f'the configured kernel options {opts} did not reach the leaf kernel ({type(ko).__name__} holds {have}) on {desc}',
+                             dict(desc, held=have), key=json.dumps(dict(site='kernel-options-arrive', kernel=fam)))
+                break
+        tag = (f'sum_power const_mix{"=0" if opts["const_mix"] == 0 else ">0"} power{"=1" if opts["power"] == 1 else "!=1"}' if fam == 'sum_power_laplace' else f'lpq p={opts["norm_p"]}')
+        ck.count(f'kernel options: {tag}'); ck.count(f'kernel options: depth={max(orc.tree_depth(t) for t in model.trees)} iters={iters}')
+        W = max(float(l['model'].weights.abs().sum()) for l in leaves)
+        # rows inside the range, training rows (= centers of some leaf: distance 0 in every coordinate), an axis-aligned neighbour of a training row
+        # (distance 0 in all coordinates but one), far outside (every Laplace factor underflows: K -> const_mix^power, not 0)
+        nb = X[3].copy(); nb[0] += 0.25
+        qrows = np.concatenate([xr.make_X('random', 4, d, rng), X[:3], nb[None, :], 50.0 * (np.abs(xr.make_X('random', 1, d, rng)) + 1.0),
+                                -1e4 * (np.abs(xr.make_X('random', 1, d, rng)) + 1.0)]).astype(np.float32)
+        if task == 'class':
+            checked += class_formula(ck, xr, orc, model, qrows, fam, desc, cmode, n_trees)
+            with xr.quiet():
+                got = np.asarray(model.predict_proba(torch.tensor(qrows)), dtype=np.float64).reshape(len(qrows), -1)
+                fn = model.predict_proba
+            tol_ind = 2e-4 + 8e-6 * (W + 1.0)
+        else:
+            with xr.quiet():
+                got = np.asarray(model.predict(torch.tensor(qrows)), dtype=np.float64).reshape(len(qrows), -1)
+                fn = model.predict
+            bad = []
+            for r, row in enumerate(qrows):
+                acc = None; near_any = False
+                for t in model.trees:
+                    lid, near = orc.exact_route(t, row, orc.assign_leaf_ids(t))
+                    near_any |= near
+                    val = orc.leaf_expansion(orc.tree_leaves(t)[lid]['model'], row)
+                    acc = val if acc is None else [a + b for a, b in zip(acc, val)]
+                if near_any:
+                    ck.skip('formula rows near a threshold'); continue
+                exp = [float(a) / len(model.trees) for a in acc]
+                tol = 2e-5 * (W + max(1.0, max(abs(v) for v in exp)))
+                err = max(abs(e - g) for e, g in zip(exp, got[r]))
+                checked += 1
+                ck.case(dict(desc, kind='kernel-options-formula', row=r), nontrivial=True); ck.count('kernel-options formula rows')
+                if not (err <= tol):
+                    bad.append((err / tol if err == err else float('inf'), r, err, tol, exp))
+            if bad:        # report the row that is furthest outside its tolerance (and how many rows are outside)
+                _, r, err, tol, exp = max(bad, key=lambda b: b[0])
+                ck.violation(f'predict != mean over held trees of sum_i alpha_i K(x,c_i) of the leaf reached, K in its documented form with the configured options {opts}: '
+                             f'row {r} x={qrows[r].tolist()} predict={got[r].tolist()} formula={exp} err={err:.3g} tol={tol:.3g} ({len(bad)} of {len(qrows)} rows outside tolerance) on {desc}',
+                             dict(desc, row=qrows[r].tolist(), got=got[r].tolist(), expected=exp, rows_outside_tolerance=[b[1] for b in bad], batch=qrows.tolist(),
+                                  X_train=X.tolist(), y_train=np.asarray(y).tolist()),
+                             key=json.dumps(dict(site='kernel-options-formula', kernel=fam, options=tag)))
+            tol_ind = 4e-5 * (W + max(1.0, float(np.abs(got).max())))
+        # batch independence in the same regime: reversed order, row-by-row, and the rows embedded among fresh rows
+        pad = xr.make_X('random', 5, d, rng).astype(np.float32)
+        with xr.quiet():
+            rev = np.asarray(fn(torch.tensor(qrows[::-1].copy())), dtype=np.float64).reshape(len(qrows), -1)[::-1]
+            one = np.concatenate([np.asarray(fn(torch.tensor(qrows[r:r + 1])), dtype=np.float64).reshape(1, -1) for r in range(len(qrows))])
+            emb = np.asarray(fn(torch.tensor(np.concatenate([pad, qrows, pad[:2]]))), dtype=np.float64).reshape(len(qrows) + 7, -1)[5:5 + len(qrows)]
+        nearrow = [any(orc.exact_route(t, row, orc.assign_leaf_ids(t))[1] for t in model.trees) for row in qrows]
+        for how, other in (('reversed', rev), ('row-by-row', one), ('embedded among 7 other rows', emb)):
+            errs = np.abs(other - got).max(axis=1); errs[np.array(nearrow)] = 0.0
+            ck.case(dict(desc, kind='kernel-options-batch', how=how), nontrivial=True)
+            if not np.all(errs <= tol_ind):
+                r = int(errs.argmax())
+                ck.violation(f'the value of row {r} x={qrows[r].tolist()} depends on the batch: {got[r].tolist()} in the {len(qrows)}-row batch, {other[r].tolist()} when {how} '
+                             f'(err {errs[r]:.3g} > {tol_ind:.3g}) on {desc}', dict(desc, row=qrows[r].tolist(), batch=qrows.tolist(), how=how, got=got[r].tolist(), other=other[r].tolist()),
+                             key=json.dumps(dict(site='kernel-options-batch', kernel=fam, how=how)))
+    return checked
+
+
 def run(ck):
     from harness import xr
     ck.rule = ('real xRFM fits (depth 0-4, 1-3 trees, overlap 0/0.1, several kernels/tasks); (i) leaves replaced by exact probe '
                'leaves (real RFM.predict loop, stubbed kernel) and _predict_tree_hard / predict compared bit-for-bit with the Coq model on '
                'random batches, permutations, splits, singletons, far rows; (ii) real leaves: predict vs mpmath kernel expansion of the '
-               'leaf reached by exact routing; (iib) the same rows inside a 50,025-row batch (crossing the 20k kernel and 50k leaf batching thresholds) vs a 7-row batch.  non-trivial = tree has >= 1 split and batch has >= 2 rows; distinct by hash of tree+batch')
+               'leaf reached by exact routing; (ii-opt) the same oracle + batch independence under non-default kernel options (sum-power const_mix x power, Lpq norm p; no / diagonal / full feature matrix); (iib) the same rows inside a 50,025-row batch (crossing the 20k kernel and 50k leaf batching thresholds) vs a 7-row batch.  non-trivial = tree has >= 1 split and batch has >= 2 rows; distinct by hash of tree+batch')
     ck.trusted += ['Coq 8.16.1 kernel + vm_compute', 'harness probe leaf (stubbed kernel only)', 'exact Fraction routing + mpmath expansion oracle',
                    'float32->Q printing']
     ck.assumptions += ['rows whose exact projection is within d*2^-20*(sum|x_i v_i|+|b|) of a threshold are excluded (counted in `skipped`)',
@@ -129,6 +243,9 @@ def run(ck):
         extra = {}
         if kern == 'lpq':
             extra = dict(norm_p=1.5)
+        if kern == 'sum_power_laplace':
+            # the sum-power kernel's own options vary with the fit index (defaults const_mix=0, power=2 every third such fit)
+            extra = dict(const_mix=[0.25, 0.0, 0.6][(i // 5) % 3], power=[2, 2, 3][(i // 5) % 3])
         exponent = [1.0, 1.2, 0.8][i % 3]
         if i % 4 == 2 or (kern == 'l2_high_dim' and i % 10 == 1):
             exponent = 2.0 if kern != 'lpq' else 1.5          # the Gaussian end of the range (Lpq: q <= p = 1.5)
@@ -153,7 +270,7 @@ def run(ck):
                         use_temperature_tuning=False, classification_mode=cmode, refill_size=20,
                         n_tree_iters=(1 if i % 8 == 5 else 0))
         desc = dict(i=i, kernel=kern, task=task, cmode=cmode, n_trees=n_trees, n=n, L=L, d=d, f=f, diag=diag, bw=bwmode,
-                    exponent=exponent, default_params=(params is None), axis_aligned_negative_split=bool(i % 8 == 3), forced_splits=chain_kw.get('number_of_splits'), seed=ck.seed)
+                    exponent=exponent, kernel_options=extra, default_params=(params is None), axis_aligned_negative_split=bool(i % 8 == 3), forced_splits=chain_kw.get('number_of_splits'), seed=ck.seed)
         try:
             with xr.quiet():
                 model.fit(torch.tensor(X), torch.tensor(y), torch.tensor(Xv), torch.tensor(yv))
@@ -202,7 +319,7 @@ def run(ck):
                 formula_checked += 1
                 ck.case(dict(desc, kind='formula', row=r), nontrivial=True)
                 if not (err <= tol):
-                    ck.violation(f'predict != mean over held trees of sum_i alpha_i K(x,c_i) of the leaf reached: err={err:.3g} tol={tol:.3g} on {desc} row {r}',
+                    ck.violation(f'predict != mean over held trees of sum_i alpha_i K(x,c_i) of the leaf reached: err={err:.3g} tol={tol:.3g} on {desc} row {r} x={row.tolist()} predict={got[r].tolist()} formula={[float(e) for e in exp]}',
                                  dict(desc, row=row.tolist(), got=got[r].tolist(), expected=[float(e) for e in exp]),
                                  key=json.dumps(dict(site='formula', kernel=kern, trees=f'{len(model.trees)}/{n_trees}')))
 
@@ -338,6 +455,7 @@ def run(ck):
         mc.split_temperature = None
         ck.count(f'confident ensemble trees_held={len(mc.trees)}/{nt}')
         formula_checked += class_formula(ck, xr, orc, mc, np.concatenate([xr.make_X('random', 50, d, rng), Xc[:10]]).astype(np.float32), ['l2', 'l1'][j % 2], descc, cm, nt)
+    formula_checked += kernel_option_regimes(ck, xr, rng)
     ck.count('formula rows checked', formula_checked)
     res = ck.run_bool_cases('probe', HEADER, cases, shard=40)
     bad = [meta[k] for k, v in res.items() if v is not True]
